@@ -114,3 +114,20 @@ Example C05_nonvacuous :
   forallb (fun n => negb (ex_skip_after_crash ScriptCancelled n)) (seq 0 12) = true /\
   forallb (fun n => negb (ex_skip_after_crash SpawnFailed n)) (seq 0 12) = true.
 Proof. vm_compute. repeat split. Qed.
+
+(* WHAT COUNTS AS A SUCCESSFUL SCRIPT (engine/builder.rs; Model/Builder.v).  The premise "the script succeeded" of the theorems above
+   is decided by build_target: a run is reported as completed exactly when the shell was spawned, the run was not cancelled, and
+   the shell EXITED WITH CODE 0 — every other exit code and every death by a signal is a failure, a cancelled run is never a
+   completed one. *)
+From Zinoma.Model Require Import Builder.
+From Zinoma.Proofs Require Import Builder.
+
+Theorem C05_completed_iff_exit_zero : forall spawn_ok cancelled_first st,
+  build_report spawn_ok cancelled_first st = RepCompleted <-> spawn_ok = true /\ cancelled_first = false /\ st = WExited 0%N.
+Proof. exact completed_iff. Qed.
+
+Theorem C05_signal_death_is_failure : forall spawn_ok sg, build_report spawn_ok false (WSignaled sg) = RepFailed.
+Proof. exact signal_death_is_failure. Qed.
+
+Theorem C05_cancelled_is_never_completed : forall spawn_ok st, build_report spawn_ok true st <> RepCompleted.
+Proof. exact cancelled_is_never_completed. Qed.
